@@ -119,8 +119,11 @@ def run_case(case):
     specs = []
     for i, a in enumerate(attempts):
         k = a["kind"]
-        if k == "refused":
-            specs.append("refused")
+        if k in ("refused", "hostunreach"):
+            specs.append(k)
+            continue
+        if k == "connect-timeout":
+            specs.append("timeout")
             continue
         if k == "reject":
             specs.append({"handshake": ["status", a.get("status", 503)], "hs_delay": a.get("hs_delay", 0.0)})
@@ -129,6 +132,10 @@ def run_case(case):
         spec = {"timeline": tl, "default_pong": 0.01, "hs_delay": a.get("hs_delay", 0.0)}
         dt = a.get("after", 1.0)
         if k == "eof":
+            tl.append([dt, ["eof"]])
+        elif k == "eof-midframe":
+            # the connection dies in the middle of a fragmented message / of a frame: nothing of it may leak into the next connection
+            tl.append([dt, ["data", a.get("dangling", b"\x01\x03abc")]])
             tl.append([dt, ["eof"]])
         elif k == "rst":
             tl.append([dt, ["rst"]])
@@ -229,13 +236,15 @@ def run_case(case):
         if closed_at is not None and g > closed_at + EPS:
             obs.fail(f"{tag}|extra-connect-attempt|after-app-close", f"connect attempt at t={g:.3f}, application closed at t={closed_at:.3f}; attempts {got_times}")
             break
-        if k == "refused":
+        if k in ("refused", "hostunreach"):
             loss = (g, g)
+        elif k == "connect-timeout":
+            loss = (g + 30.0, g + 30.0)
         elif k == "reject":
             loss = (g + a.get("hs_delay", 0.0),) * 2
         else:
             est = g + a.get("hs_delay", 0.0)
-            if k in ("eof", "rst"):
+            if k in ("eof", "rst", "eof-midframe"):
                 loss = (est + a.get("after", 1.0),) * 2
             elif k == "server-close":
                 stop_reason, stopped_at = "server-close", est + a.get("after", 1.0)
@@ -288,7 +297,7 @@ def run_case(case):
         if peer.established_at is None:
             continue
         a = attempts[ai] if ai < len(attempts) else None
-        if a is None or a["kind"] in ("reject",):
+        if a is None or a["kind"] in ("reject", "refused", "hostunreach", "connect-timeout"):
             continue
         if closed_at is not None and peer.established_at >= closed_at - EPS:
             continue
@@ -302,7 +311,7 @@ def run_case(case):
         elif evs[0][1] != want_cb:
             obs.fail(f"{tag}|{evs[0][1]}-instead-of-{want_cb}", f"connection {ai} (success #{succ})")
         t_msg = peer.established_at + a.get("msg_at", 0.2)
-        lost_before = a["kind"] in ("eof", "rst", "server-close") and a.get("after", 1.0) < a.get("msg_at", 0.2)
+        lost_before = a["kind"] in ("eof", "rst", "server-close", "eof-midframe") and a.get("after", 1.0) < a.get("msg_at", 0.2)
         if not lost_before and (closed_at is None or t_msg < closed_at - EPS) and t_msg <= res["t_end"] + EPS:
             if not any(e[1] == "on_message" and e[2] == f"msg{ai}" for e in trace):
                 obs.fail(f"{tag}|message-not-delivered-after-reconnect", f"msg{ai} sent at t={t_msg:.2f} never reached on_message")
@@ -311,8 +320,8 @@ def run_case(case):
 
 def _cls(obs, case, natt):
     kinds = [a["kind"] for a in case["attempts"]]
-    fails = sum(1 for k in kinds if k in ("refused", "reject", "eof", "rst", "ping-timeout"))
-    succ = sum(1 for k in kinds if k not in ("refused", "reject"))
+    fails = sum(1 for k in kinds if k in ("refused", "reject", "eof", "rst", "ping-timeout", "eof-midframe", "hostunreach", "connect-timeout"))
+    succ = sum(1 for k in kinds if k not in ("refused", "reject", "hostunreach", "connect-timeout"))
     nt = natt >= 2 and fails >= 1 and succ >= 1
     obs.cls = ("external" if case.get("external") else "builtin", f"attempts:{min(natt, 6)}", f"stop:{'app-close' if case.get('close_at') is not None else kinds[-1]}",
                f"on_reconnect:{int(case.get('on_reconnect', True))}", f"ping:{int(bool(case.get('ping')))}", f"tls:{int(bool(case.get('secure')))}") + tuple(sorted({f"kind:{k}" for k in kinds}))
@@ -324,7 +333,7 @@ def seq_cases():
     import itertools
 
     for ext in (False, True):
-        kinds = ["refused", "reject", "eof"] + ([] if ext else ["rst"])
+        kinds = ["refused", "reject", "eof", "eof-midframe"] + ([] if ext else ["rst"])
         for n in (1, 2, 3):
             for seq in itertools.product(kinds, repeat=n):
                 for stop in ("server-close", "app-close"):
@@ -352,16 +361,19 @@ def cases(draw):
     if not ext and draw(st.integers(0, 2)) == 0:
         T = draw(st.sampled_from([1, 2]))
         ping = [draw(st.sampled_from([1.5 * T, 3 * T])), T]
-    kinds = ["refused", "refused", "reject", "eof", "eof"] + ([] if ext else ["rst"]) + (["ping-timeout"] if ping else [])
+    kinds = ["refused", "refused", "reject", "eof", "eof", "eof-midframe", "hostunreach"] + ([] if ext else ["rst", "connect-timeout"]) + (["ping-timeout"] if ping else [])
     n = draw(st.integers(0, 5))
     att = []
     for _ in range(n):
         k = draw(st.sampled_from(kinds))
         a = {"kind": k}
-        if k in ("eof", "rst"):
+        if k in ("eof", "rst", "eof-midframe"):
             a["after"] = draw(st.sampled_from([0.0, 0.1, 1.0, 7.5]))
             a["msg_at"] = draw(st.sampled_from([0.0, 0.2, 0.5]))
-        if k != "refused":
+        if k == "eof-midframe":
+            a["after"] = draw(st.sampled_from([1.0, 7.5]))
+            a["dangling"] = draw(st.sampled_from([b"\x01\x03abc", b"\x02\x00", b"\x81\x7e\x01", b"\x82\x05ab", b"\x01\x01x\x00\x01y", b"\x89"]))
+        if k not in ("refused", "hostunreach", "connect-timeout"):
             a["hs_delay"] = draw(st.sampled_from([0.0, 0.0, 0.3]))
         if k == "reject":
             a["status"] = draw(st.sampled_from([400, 404, 500, 503]))
